@@ -1027,6 +1027,390 @@ def gen_ilv_cases(thorough):
 
 
 # -------------------------------------------------------------------------------------------------
+# several libraries (different paths) written at the same time in one process: every library holds
+# exactly what was stored in IT
+# -------------------------------------------------------------------------------------------------
+MULTI_BUFS = {"default": None, "small": 300, "large": 1_000_000, "mixed": "mixed"}
+
+
+def _interleavings(counts):
+    """all orderings of counts[i] puts of library i"""
+    out = []
+
+    def rec(cur, left):
+        if not any(left):
+            out.append(list(cur))
+            return
+        for i, n in enumerate(left):
+            if n:
+                left[i] -= 1
+                rec(cur + [i], left)
+                left[i] += 1
+
+    rec([], list(counts))
+    return out
+
+
+def gen_multi_cases(thorough):
+    out = []
+    pairs = [["mlib", "mlib"], ["mlib", "clib"], ["clib", "clib"]]
+    for types in pairs:
+        for buf in MULTI_BUFS:
+            for counts in ([2, 2], [2, 3], [3, 3]):
+                for order in _interleavings(counts):
+                    for enter in ([0, 1], [1, 0]):
+                        for keys in ("distinct", "same"):
+                            out.append({"types": types, "buf": buf, "order": order, "enter": enter, "keys": keys, "how": "sessions-open-together", "encs": ["v2", "v2"]})
+            for order in _interleavings([2, 2]):
+                out.append({"types": types, "buf": buf, "order": order, "enter": [0, 1], "keys": "same", "how": "session-per-put", "encs": ["v2", "v2"]})
+                out.append({"types": types, "buf": buf, "order": order, "enter": [0, 1], "keys": "distinct", "how": "sessions-open-together", "encs": ["v1", "v2"]})
+    for buf in MULTI_BUFS:
+        for order in _interleavings([2, 2, 2] if not thorough else [2, 2, 3]):
+            out.append({"types": ["mlib", "mlib", "clib"], "buf": buf, "order": order, "enter": [0, 1, 2], "keys": "same", "how": "sessions-open-together", "encs": ["v2", "v2", "v2"]})
+        for lib in ("mlib", "clib"):
+            out.append({"types": [lib, lib], "buf": buf, "order": [0, 1, 0], "enter": [0], "keys": "distinct", "how": "handle-recreated-on-the-same-path", "encs": ["v2", "v2"]})
+    if thorough:
+        for c in list(out):
+            if c["how"] == "sessions-open-together" and c["encs"] == ["v2", "v2"] and len(c["order"]) <= 5:
+                out.append(dict(c, encs=["v1", "v1"]))
+    out.sort(key=lambda c: (len(c["order"]), len(c["types"])))
+    return out
+
+
+def _multi_one(libs, A, mc, seed):
+    """-> (symptom or None, outcome, transitions)"""
+    from contextlib import ExitStack
+
+    types, order, how = mc["types"], mc["order"], mc["how"]
+    recreate = how == "handle-recreated-on-the-same-path"
+    nlib = 1 if recreate else len(types)
+    bufs = []
+    for i in range(len(types)):
+        b = MULTI_BUFS[mc["buf"]]
+        if b == "mixed":
+            b = 1_000_000 if i == 0 else None
+        bufs.append({} if b is None else {"bufsize": b})
+    paths = []
+    for i in range(nlib):
+        pth = libs.dir / f"multi{i}_{mc['encs'][i]}.{types[i]}"
+        if pth.exists():
+            pth.unlink()
+        if mc["encs"][i] == "v1":
+            UKVFile(pth, mode="x", h1=b"ML10Library").close()
+        paths.append(pth)
+    # what goes where
+    nput = [0] * len(types)
+    plan = []  # (handle index, library index, key, object, snapshot, conf?)
+    stored = [dict() for _ in range(nlib)]
+    for n, i in enumerate(order):
+        li = 0 if recreate else i
+        pool = ILV_POOL[types[i]]
+        spec = pool[(nput[i] + seed + (i if recreate else 0) * 2) % len(pool)]
+        key = f"k{nput[i]}" if (mc["keys"] == "same" and not recreate) else f"lib{i}_k{nput[i]}"
+        nput[i] += 1
+        o = build(A, spec["kind"], tuple(spec["shape"]), spec["over"], seed, tag=f"#L{i}#{n}")
+        plan.append((i, li, key, o))
+        stored[li][key] = (snapshot(o), spec["kind"] == "conf")
+    ntr = 0
+    stage = "open"
+    try:
+        # every handle exists before any of them is used
+        hs = [libs.open(types[i], paths[0 if recreate else i], readonly=False, **bufs[i]) for i in range(len(types))]
+        for i, h in enumerate(hs):
+            check_version(h, mc["encs"][0 if recreate else i])
+        if how == "sessions-open-together":
+            with ExitStack() as stack:
+                stage = "session-enter"
+                for i in mc["enter"]:
+                    stack.enter_context(hs[i].writing(timeout=10))
+                stage = "put"
+                for i, li, key, o in plan:
+                    hs[i][key] = o
+                    ntr += 1
+                stage = "session-exit"
+        else:
+            for i, li, key, o in plan:
+                stage = "session-enter"
+                with hs[i].writing(timeout=10):
+                    stage = "put"
+                    hs[i][key] = o
+                    ntr += 1
+                    stage = "session-exit"
+        stage = "readback"
+        outs = []
+        for li in range(nlib):
+            hr = libs.open(types[li], paths[li], readonly=True)
+            with hr.reading(timeout=10):
+                ks = sorted(hr.keys())
+                if ks != sorted(stored[li]) or len(hr) != len(stored[li]):
+                    return "key-listing-differs", ("keys", li), ntr
+                for k in ks:
+                    g = snapshot(hr[k])
+                    ntr += 1
+                    outs.append(digest(g))
+                    if compare(stored[li][k][0], g, mc["encs"][li], conf_source=stored[li][k][1]):
+                        return "record-corrupted", ("obj", li), ntr
+        return None, ("ok", tuple(outs)), ntr
+    except HarnessError:
+        raise
+    except Exception as e:
+        sym = {"open": "open-raised", "session-enter": "session-enter-raised", "put": "put-raised", "session-exit": "session-exit-raised"}.get(stage, "record-corrupted")
+        return sym, ("exc", stage), ntr
+    finally:
+        libs.done()
+
+
+def eval_multi(ctx, A, mc, seed, libs=None):
+    libs = libs or Libs(ctx.scratch)
+    sym, out, ntr = _multi_one(libs, A, mc, seed)
+    ctx.count(evaluations=1, states=1, transitions=ntr, traces=1)
+    ctx.outcome(("multi", out))
+    ctx.nontrivial(("multi", "+".join(mc["types"]), mc["buf"], tuple(mc["order"]), tuple(mc["enter"]), mc["keys"], mc["how"], tuple(mc["encs"])))
+    if sym:
+        encs = "" if set(mc["encs"]) == {"v2"} else "|enc=" + "+".join(mc["encs"])
+        ctx.violation(
+            f"multilib|{'+'.join(mc['types'])}{encs}|buf={mc['buf']}|{mc['how']}|{sym}",
+            f"{len(mc['types'])} library objects ({mc['how']}), puts in library order {mc['order']}, sessions entered in order {mc['enter']}, keys {mc['keys']}, bufsize {mc['buf']}: {sym}",
+            dict(mc, mode="multilib"),
+            repro=multi_repro(mc),
+        )
+
+
+def multi_repro(mc):
+    cls = {"mlib": "MoleculeLibrary", "clib": "ConformerLibrary"}
+    mk = {"mlib": "ml.Molecule(['C'] * (n + 1), name=f'{tag}{n}')", "clib": "ml.ConformerEnsemble(['C'] * (n + 1), n_conformers=2, name=f'{tag}{n}')"}
+    b = MULTI_BUFS[mc["buf"]]
+    L = ["import os, molli as ml"]
+    n = len(mc["types"])
+    for i, t in enumerate(mc["types"]):
+        kw = "" if b is None or (b == "mixed" and i) else f", bufsize={1_000_000 if b == 'mixed' else b}"
+        pth = f"/tmp/c01_multi{0 if mc['how'].startswith('handle') else i}.{t}"
+        L.append(f"p{i} = '{pth}'")
+        if not (mc["how"].startswith("handle") and i):
+            L.append(f"if os.path.exists(p{i}): os.unlink(p{i})")
+        L.append(f"lib{i} = ml.{cls[t]}(p{i}, readonly=False{kw})")
+        L.append(f"def mk{i}(n, tag='lib{i}_'): return {mk[t]}")
+    cnt = [0] * n
+    if mc["how"] == "sessions-open-together":
+        L.append("with " + ", ".join(f"lib{i}.writing()" for i in mc["enter"]) + ":")
+        for i in mc["order"]:
+            L.append(f"    lib{i}['k{cnt[i]}'] = mk{i}({cnt[i]})")
+            cnt[i] += 1
+    else:
+        for i in mc["order"]:
+            L.append(f"with lib{i}.writing(): lib{i}['lib{i}_k{cnt[i]}'] = mk{i}({cnt[i]})")
+            cnt[i] += 1
+    for i, t in enumerate(mc["types"]):
+        if mc["how"].startswith("handle") and i:
+            continue
+        L.append(f"new = ml.{cls[t]}(p{i})")
+        L.append(f"with new.reading(): print('library {i}:', sorted((k, new[k].name) for k in new.keys()))   # expected: only what was stored in library {i}")
+    return "\n".join(L)
+
+
+# -------------------------------------------------------------------------------------------------
+# a pass over items() / values() / keys() advanced one next() at a time, with other reads (and, in a
+# writing session, a put) of the same handle between two next() calls: every (key, object) handed
+# out is the object stored under that key
+# -------------------------------------------------------------------------------------------------
+GEN_DISTURB = ["G0", "G1", "G2", "Q", "NF", "N1", "V1", "P"]
+
+
+def gen_gen_cases(thorough):
+    out = []
+    dis = [None] + GEN_DISTURB
+    for lib in ("mlib", "clib"):
+        for enc in ("v2", "v1") if thorough else ("v2",):
+            for sizes in ("equal", "different"):
+                for session in ("reading", "writing"):
+                    for kind in ("items", "values", "keys"):
+                        for d in itertools.product(dis, repeat=3):
+                            if "P" in d and session != "writing":
+                                continue
+                            if d.count("P") > 1:
+                                continue
+                            nd = sum(1 for x in d if x)
+                            if not thorough and nd > 2:
+                                continue
+                            out.append({"lib": lib, "enc": enc, "sizes": sizes, "session": session, "kind": kind, "d": list(d)})
+    out.sort(key=lambda c: sum(1 for x in c["d"] if x))
+    return out
+
+
+def _gen_objects(A, gc, seed):
+    lib = gc["lib"]
+    if gc["sizes"] == "different":
+        pool = ILV_POOL[lib]
+        specs = [pool[(i + seed) % len(pool)] for i in range(4)]
+        objs = [build(A, s["kind"], tuple(s["shape"]), s["over"], seed) for s in specs]
+        return objs, [s["kind"] == "conf" for s in specs]
+    # records of exactly the same serialized size: same shape, names of equal length, other numbers
+    kind = "mol" if lib == "mlib" else "ens"
+    objs = []
+    for i in range(4):
+        o = build(A, kind, (2, 1, 1) if kind == "mol" else (2, 1, 2), {"atom.label": "C1"}, seed)
+        o.name = f"eq{i}"
+        o.coords[..., 0] = 1.5 + i
+        objs.append(o)
+    return objs, [False] * 4
+
+
+def _gen_one(libs, A, gc, seed):
+    """-> (symptom or None, disturbance class, outcome, transitions)"""
+    lib, enc, kind = gc["lib"], gc["enc"], gc["kind"]
+    objs, confs = _gen_objects(A, gc, seed)
+    exps = [snapshot(o) for o in objs]
+    path = libs.new_path(lib, enc)
+    ntr = 0
+    done_dist = []
+    stored = {}
+
+    def which(got):
+        g = snapshot(got)
+        for j in sorted(stored.values()):
+            if not compare(exps[j], g, enc, conf_source=confs[j]):
+                return j
+        return None
+
+    def good_pair(k, v):
+        return k in stored and not compare(exps[stored[k]], snapshot(v), enc, conf_source=confs[stored[k]])
+
+    cls = lambda: ("get" if any(x[0] == "G" for x in done_dist) else "nested-pass" if any(x in ("NF", "N1", "V1") for x in done_dist) else "put" if "P" in done_dist else "probe" if "Q" in done_dist else "nothing")
+    try:
+        h0 = libs.open(lib, path, readonly=False)
+        check_version(h0, enc)
+        with h0.writing(timeout=10):
+            for j in range(3):
+                h0[f"key{j}"] = objs[j]
+                stored[f"key{j}"] = j
+        hs = libs.open(lib, path, readonly=(gc["session"] == "reading"))
+        cm = hs.reading(timeout=10) if gc["session"] == "reading" else hs.writing(timeout=10)
+        put_done = False
+        with cm:
+            g0 = hs.items() if kind == "items" else (hs.values() if kind == "values" else iter(hs))
+            g1 = v1 = None
+            seen_keys, seen_objs = [], []
+            ended = False
+            for gap in range(3):
+                d = gc["d"][gap]
+                if d:
+                    done_dist.append(d)
+                    ntr += 1
+                    if d[0] == "G":
+                        if not good_pair(f"key{d[1]}", hs[f"key{d[1]}"]):
+                            return "get-during-pass:wrong-object", cls(), ("g",), ntr
+                    elif d == "Q":
+                        if sorted(hs.keys()) != sorted(stored) or len(hs) != len(stored) or ("key0" in hs) is not True or ("nokey" in hs) is not False:
+                            return "probe-during-pass:key-listing-differs", cls(), ("q",), ntr
+                    elif d == "NF":
+                        inner = dict(hs.items())
+                        if sorted(inner) != sorted(stored) or not all(good_pair(k, v) for k, v in inner.items()):
+                            return "nested-pass:wrong-pair", cls(), ("nf",), ntr
+                    elif d == "N1":
+                        if g1 is None:
+                            g1 = hs.items()
+                        k, v = next(g1)
+                        if not good_pair(k, v):
+                            return "nested-pass:wrong-pair", cls(), ("n1",), ntr
+                    elif d == "V1":
+                        if v1 is None:
+                            v1 = hs.values()
+                        if which(next(v1)) is None:
+                            return "nested-pass:wrong-pair", cls(), ("v1",), ntr
+                    elif d == "P":
+                        hs["key3"] = objs[3]
+                        stored["key3"] = 3
+                        put_done = True
+                if ended:
+                    continue
+                ntr += 1
+                try:
+                    item = next(g0)
+                except StopIteration:
+                    return "pass-incomplete", cls(), ("stop", gap), ntr
+                except RuntimeError:
+                    if put_done:
+                        ended = True  # like a dict: a pass does not survive an insertion (established on the repaired tree)
+                        continue
+                    raise
+                if kind == "items":
+                    k, v = item
+                    if not good_pair(k, v) or k in seen_keys:
+                        return "wrong-pair", cls(), ("pair", gap), ntr
+                    seen_keys.append(k)
+                elif kind == "values":
+                    j = which(item)
+                    if j is None or j in seen_objs:
+                        return "wrong-pair", cls(), ("value", gap), ntr
+                    seen_objs.append(j)
+                else:
+                    if item not in stored or item in seen_keys:
+                        return "wrong-pair", cls(), ("key", gap), ntr
+                    seen_keys.append(item)
+            if not ended and not put_done:
+                try:
+                    extra = next(g0)
+                except StopIteration:
+                    extra = None
+                if extra is not None:
+                    return "pass-incomplete", cls(), ("extra",), ntr
+        # everything (also a record put during the pass) reads back through a fresh handle
+        hr = libs.open(lib, path, readonly=True)
+        with hr.reading(timeout=10):
+            if sorted(hr.keys()) != sorted(stored):
+                return "readback:key-listing-differs", cls(), ("rk",), ntr
+            for k in sorted(stored):
+                ntr += 1
+                if not good_pair(k, hr[k]):
+                    return "readback:record-corrupted", cls(), ("ro",), ntr
+        return None, cls(), ("ok", tuple(seen_keys), tuple(seen_objs)), ntr
+    except HarnessError:
+        raise
+    except Exception as e:
+        # a pass that walks into the wrong bytes yields another record or fails to decode, depending
+        # on the record sizes: one symptom class for both
+        return "wrong-pair", cls(), ("exc", type(e).__name__), ntr
+    finally:
+        libs.done()
+
+
+def eval_gen(ctx, A, gc, seed, libs=None):
+    libs = libs or Libs(ctx.scratch)
+    sym, dcls, out, ntr = _gen_one(libs, A, gc, seed)
+    ctx.count(evaluations=1, states=1, transitions=ntr, traces=1)
+    ctx.outcome(("gen", gc["kind"], out))
+    if any(gc["d"]):
+        ctx.nontrivial(("gen", gc["lib"], gc["enc"], gc["sizes"], gc["session"], gc["kind"], tuple(gc["d"])))
+    if sym:
+        ctx.violation(
+            f"pass|{gc['lib']}|enc={gc['enc']}|{gc['kind']}()-pass|disturbed-by-{dcls}|{sym}",
+            f"{gc['session']} session, records of {gc['sizes']} size, a {gc['kind']}() pass advanced one next() at a time with {gc['d']} before the 1st/2nd/3rd next (Gj = get key j, Q = keys/len/in, NF = a nested full items() pass, N1/V1 = one next of a second items()/values() pass, P = put): {sym}",
+            dict(gc, mode="pass"),
+            repro=gen_repro(gc),
+        )
+
+
+def gen_repro(gc):
+    cls = "MoleculeLibrary" if gc["lib"] == "mlib" else "ConformerLibrary"
+    mk = "ml.Molecule(['C', 'H'], name=f'obj{n}')" if gc["lib"] == "mlib" else "ml.ConformerEnsemble(['C', 'H'], n_conformers=2, name=f'obj{n}')"
+    return "\n".join(
+        [
+            "import os, molli as ml",
+            f"p = '/tmp/c01_pass.{gc['lib']}'",
+            "if os.path.exists(p): os.unlink(p)",
+            f"def mk(n): return {mk}",
+            f"lib = ml.{cls}(p, readonly=False)",
+            "with lib.writing():",
+            "    for n in range(3): lib[f'key{n}'] = mk(n)",
+            "with lib.reading():",
+            f"    for k, v in lib.items():        # the check does the same for values() / keys(), disturbances {gc['d']}",
+            "        other = lib['key0']           # any other read of the same handle inside the loop body",
+            "        print(k, v.name)              # expected: key<n> obj<n> for every pair",
+        ]
+    )
+
+
+# -------------------------------------------------------------------------------------------------
 # repeated retrieval: what is stored reads back equal EVERY time, whatever was done to an object
 # retrieved earlier (and whatever is done to the source object after it was stored)
 # -------------------------------------------------------------------------------------------------
@@ -1342,6 +1726,14 @@ def _part(ctx, part):
     kind, payload = part
     if kind == "cases":
         eval_cases(ctx, A, payload, ctx.seed)
+    elif kind == "multi":
+        libs = Libs(ctx.scratch)
+        for mc in payload:
+            eval_multi(ctx, A, mc, ctx.seed, libs)
+    elif kind == "gen":
+        libs = Libs(ctx.scratch)
+        for gc in payload:
+            eval_gen(ctx, A, gc, ctx.seed, libs)
     elif kind == "ilv":
         libs = Libs(ctx.scratch)
         for ic in payload:
@@ -1363,7 +1755,7 @@ def run(ctx):
         "bounded-exhaustive small-scope grammar: every field value alone and every pair of values of two different "
         "fields (atom, bond, molecule/ensemble records, coordinates/charges/weights value classes, conformer count), "
         "every shape 0..3 atoms x 0..3 bonds x 0..3 conformers, Conformer views, every put/read order of 1..3 objects "
-        "x handles x sessions, every string of {put, get of any stored key, contains/keys/len} up to length 6 (thorough 7) inside one writing session, 3 write-buffer settings, followed by a full read-back in the same session / a new session / a new handle, get / mutate the retrieved object in place / get again over 6 retrieval routes and 2 write-side routes; each case written to and read from real v2 and v1 MoleculeLibrary/ConformerLibrary files "
+        "x handles x sessions, every string of {put, get of any stored key, contains/keys/len} up to length 6 (thorough 7) inside one writing session, 3 write-buffer settings, followed by a full read-back in the same session / a new session / a new handle, 2-3 libraries on different paths written with every interleaving of 2-3 puts each under 4 buffer settings, items()/values()/keys() passes advanced one next() at a time with every choice of disturbance (get, probe, nested pass, put) before each next, get / mutate the retrieved object in place / get again over 6 retrieval routes and 2 write-side routes; each case written to and read from real v2 and v1 MoleculeLibrary/ConformerLibrary files "
         "and compared field by field with a snapshot taken by the harness's own walker; a case is non-trivial when the "
         "object has >= 1 atom and >= 1 field differs from the constructor defaults (or >= 2 objects for sequences)"
     )
@@ -1374,6 +1766,8 @@ def run(ctx):
         "a Conformer view stored in a MoleculeLibrary reads back as a Molecule with the conformer's fields",
         "bonds never join an atom with itself; atoms of an ensemble are given through an atom list (the 0-atom ensemble through n_atoms=0)",
         "when v2 and v1 fail on the same case with the same symptom the violation is reported once with enc=any",
+        "several library objects on different paths may be in writing() at the same time in one process (sessions nest per path), with any write buffer: afterwards each file holds exactly what was stored through its own handle",
+        "a pass over items()/values()/keys() may be interleaved with other reads of the same handle; inserting a record during a pass may end that pass with RuntimeError (as for a dict - this is what the repaired tree does) but never hands out a wrong pair, and the record is stored",
         "repeated retrieval: an object read from a library is the caller's own (changing it in place must not change what any later retrieval of the same record returns - same session, new session, new handle, a byte-identical record under another key or in another file, items()); likewise changing the source object after it was stored does not change the stored record, and storing it again stores its new state",
     ]
     cases = gen_field_cases(A, thorough, ctx.seed) + gen_shape_cases(A, thorough)
@@ -1425,6 +1819,18 @@ def run(ctx):
     long_ = [c for c in ilvs if len(c["ops"]) > 4]
     nl = 16 if thorough else 8
     parts += [("ilv", long_[i::nl]) for i in range(nl) if long_[i::nl]]
+    # several libraries at once / disturbed passes: the smallest cases first, in the master
+    multis = gen_multi_cases(thorough)
+    gens = gen_gen_cases(thorough)
+    for c in [c for c in multis if len(c["order"]) <= 4]:
+        eval_multi(ctx, A, c, ctx.seed, libs0)
+    for c in [c for c in gens if sum(1 for x in c["d"] if x) <= 1]:
+        eval_gen(ctx, A, c, ctx.seed, libs0)
+    m_rest = [c for c in multis if len(c["order"]) > 4]
+    g_rest = [c for c in gens if sum(1 for x in c["d"] if x) > 1]
+    parts += [("multi", m_rest[i::nl]) for i in range(nl) if m_rest[i::nl]]
+    parts += [("gen", g_rest[i::nl]) for i in range(nl) if g_rest[i::nl]]
+    ctx.bound.update({"multi_library_cases": len(multis), "disturbed_pass_cases": len(gens)})
     parts += [("reget", regets)]  # one part, fixed order
     parts += [("seq", seqs)]  # one part: the kept counterexample of a sequence signature is the first in order
     ctx.pmap(_part, parts)
@@ -1434,6 +1840,12 @@ def replay(ctx, case):
     A = alphabets(True)
     if case.get("mode") == "sequence":
         eval_seq(ctx, A, case, ctx.seed)
+        return
+    if case.get("mode") == "multilib":
+        eval_multi(ctx, A, {k: v for k, v in case.items() if k != "mode"}, ctx.seed)
+        return
+    if case.get("mode") == "pass":
+        eval_gen(ctx, A, {k: v for k, v in case.items() if k != "mode"}, ctx.seed)
         return
     if case.get("mode") == "interleave":
         eval_ilv(ctx, A, {k: v for k, v in case.items() if k in ("lib", "ops", "buf", "rev")}, ctx.seed)
